@@ -128,7 +128,7 @@ CHECKS['C04'] = dict(
     level_note='Trusted: model, generator; two compilers sample the unspecified-evaluation-order dimension.',
 )
 
-MQ = [0x03, 0x0c, 0x30, 0x40, 0x700]
+MQ = [0x03, 0x0c, 0x30, 0x40, 0x700, 0x800]
 CHECKS['C05'] = dict(
     title='EventQueue consumes every queued event exactly once, in FIFO order',
     level='exploration',
@@ -288,8 +288,8 @@ CHECKS['C13'] = dict(
     rule='the C05 histories on queues with QueueList=OrderedQueueList (ascending keys; key%4 descending with many ties): model keeps the pending list '
          'stably sorted, re-queued events merged before newer equals; independent per-call monotonicity/stability check from the dispatch trace; '
          'non-trivial as C05; distinct = trace hash',
-    jobs=[J('drv_queue', 'asan', 'c13', 2000, 100000, defs=['-DVF_CFG_MASK=0x18'], shards=8),
-          J('drv_queue', 'plain', 'c13', 4000, 200000, defs=['-DVF_CFG_MASK=0x18'], seed_offset=1, shards=8)],
+    jobs=[J('drv_queue', 'asan', 'c13', 2000, 100000, defs=['-DVF_CFG_MASK=0x818'], shards=8),
+          J('drv_queue', 'plain', 'c13', 4000, 200000, defs=['-DVF_CFG_MASK=0x818'], seed_offset=1, shards=8)],
     assumptions=['comparators used are strict weak orders'],
     technique='online next-callback-expectation monitor with ordered-pending model + trace-level monotonicity/stability oracle; ASan+UBSan',
     level_text='Exploration: as C05, on ordered queue lists, with heavy key duplication.',
